@@ -344,3 +344,87 @@ class WrappedWalk:
 
     def claim(a, d, w):
         return ((a % w) + d) % w == (a + d) % w
+
+
+# ---- concentric hexagons -------------------------------------------------------------------------------------
+def ring_point(r, s, k):
+    """k-th point (0 <= k < r) of side s (0..5) of the ring of radius r around (0,0): the ring starts at
+    (0,-r) and its sides run north-east, north, west, south-west, south, east"""
+    return ite(s == 0, (k, k - r), ite(s == 1, (r, k), ite(s == 2, (r - k, r),
+               ite(s == 3, (-k, r - k), ite(s == 4, (-r, -k), (k - r, -r))))))
+
+
+def side_of(dx, dy):
+    return ite(dx == 1 and dy == 1, 0, ite(dx == 0 and dy == 1, 1, ite(dx == -1 and dy == 0, 2,
+               ite(dx == -1 and dy == -1, 3, ite(dx == 0 and dy == -1, 4, 5)))))
+
+
+@contract("rig/geometry.py::concentric_hexagons")
+class ConcentricHexagons:
+    """The generator yields the centre, then for r = 1..radius the 6r points ring_point(r, s, k) in the
+    order s = 0..5, k = 0..r-1 (ghost assertion at the yield).  With the three lemmas below - every
+    ring point is at distance exactly r, ring points are pairwise distinct, every point at distance r
+    is a ring point - each chip within the radius is yielded exactly once, nearest ring first."""
+    properties = ("C11",)
+    params = dict(radius=TInt(0, None), start=T2)
+    options = {"opaque_yields": True}
+    loop_headers = {0: "for r in range(1, radius + 1):", 2: "for _ in range(r):"}
+
+    def native(radius, start):
+        from rig.geometry import concentric_hexagons
+        if radius > 60:
+            raise __import__("pyvc.replay", fromlist=["OutsideHarness"]).OutsideHarness()
+        return {"__native__": True, "result": None, "points": [tuple(p) for p in concentric_hexagons(radius, tuple(start))]}
+
+    def native_check(inputs, out):
+        """the ghost assertion on the points the real generator produced"""
+        sx, sy = inputs["start"]
+        want = [(sx, sy)]
+        for r in range(1, inputs["radius"] + 1):
+            for s in range(6):
+                for k in range(r):
+                    px, py = [(k, k - r), (r, k), (r - k, r), (-k, r - k), (-r, -k), (k - r, -r)][s]
+                    want.append((sx + px, sy + py))
+        return [] if out["points"] == want else ["ghost_yields_the_next_ring_point"]
+
+    def sample_domain(radius):
+        return radius <= 8
+
+    def inv_0_at_the_start_of_the_previous_ring(x, y, old_start, _k0):
+        # before ring r = _k0 + 1 the walk is back at the first point of ring _k0
+        return x == old_start[0] and y == old_start[1] - _k0
+
+    def inv_2_along_one_side(x, y, pre_x, pre_y, dx, dy, _k2):
+        return x == pre_x + _k2 * dx and y == pre_y + _k2 * dy
+
+    ghost_asserts = {"yield (x, y)": ["ghost_yields_the_next_ring_point"]}
+
+    def ghost_yields_the_next_ring_point(x, y, old_start, r, dx, dy, loop_k2):
+        # the very first yield (no ring yet) is the centre itself
+        return ((r is None and x == old_start[0] and y == old_start[1])
+                or (r is not None and (x - old_start[0], y - old_start[1]) == ring_point(r, side_of(dx, dy), loop_k2)))
+
+
+@lemma("ring_points_are_the_points_at_distance_r")
+class RingPoints:
+    properties = ("C11",)
+    params = dict(r=TInt(1, None), s=TInt(0, 5), k=TInt(0, None), s2=TInt(0, 5), k2=TInt(0, None), px=TInt(), py=TInt())
+
+    def assuming(r, s, k, s2, k2, px, py):
+        return k < r and k2 < r
+
+    def claim_every_ring_point_is_at_distance_r(r, s, k, s2, k2, px, py):
+        return hexd(ring_point(r, s, k)[0], ring_point(r, s, k)[1]) == r
+
+    def claim_ring_points_are_pairwise_distinct(r, s, k, s2, k2, px, py):
+        return implies(ring_point(r, s, k) == ring_point(r, s2, k2), s == s2 and k == k2)
+
+    def claim_every_point_at_distance_r_is_a_ring_point(r, s, k, s2, k2, px, py):
+        # witness: the side is decided by the sextant, the position along it by one coordinate
+        return implies(hexd(px, py) == r,
+                       (px >= 0 and py < 0 and px - py == r and (px, py) == ring_point(r, 0, px))
+                       or (px == r and 0 <= py < r and (px, py) == ring_point(r, 1, py))
+                       or (py == r and 0 < px <= r and (px, py) == ring_point(r, 2, r - px))
+                       or (px <= 0 and py > 0 and py - px == r and (px, py) == ring_point(r, 3, -px))
+                       or (px == -r and -r < py <= 0 and (px, py) == ring_point(r, 4, -py))
+                       or (py == -r and -r <= px < 0 and (px, py) == ring_point(r, 5, px + r)))
